@@ -49,7 +49,7 @@ class C16Check(Check):
 
 reg(C16Check(
     "C16", "c16",
-    coq_targets=["Conn/ConnCheck.vo", "Conn/ConnProofs.vo", "Conn/ConnLive.vo", "Props/C16.vo"],
+    coq_targets=["Conn/ConnCheck.vo", "Conn/ConnProofs.vo", "Conn/ConnLive.vo", "Conn/ConnKSound.vo", "Props/C16.vo"],
     assumptions=[
         "each requester goroutine issues one Connection call and calls the done function it was given only after that call returned",
         "sync.Mutex, sync.Once and close/receive on the ready channel behave as documented; a critical section is one atomic step",
